@@ -1,5 +1,5 @@
 //! C44 — multi-market swaps follow the declared path and move recorded balances (E3: every swap
-//! path up to three hops over four markets sharing three tokens, executed through real deposit
+//! path up to three hops over five markets sharing three tokens, executed through real deposit
 //! instructions whose initial token is swapped into the deposit market's long token).
 use anchor_lang::prelude::*;
 use gmsol_model::{price::{Price, Prices}, MarketAction, SwapMarketMutExt};
@@ -17,7 +17,7 @@ struct X {
     w: W,
     c: Pubkey,
     feed_c: Pubkey,
-    markets: Vec<MarketKeys>, // m1 (A|A/B), m2 (B|A/B), m3 (C|B/C), m4 (C|A/C)
+    markets: Vec<MarketKeys>, // m1 (A|A/B), m2 (B|A/B), m3 (C|B/C), m4 (C|A/C), m5 (B|B/A)
 }
 
 fn build() -> (Db, X) {
@@ -42,12 +42,13 @@ fn build() -> (Db, X) {
     };
     let m3 = mk(c, w.b, c, "C/USD[B-C]");
     let m4 = mk(c, w.a, c, "C/USD[A-C]");
+    let m5 = mk(w.b, w.b, w.a, "B/USD[B-A]");
     let feed_c = addr("w-feed-c");
     db.set(feed_c, feed_account(&w.store, &c, &feed_id_c, 0, 1_000, 10, 2_0000_0000, 2_0000_0000, 2_0000_0000, 8, true));
     for u in [w.user, w.user2] {
         db.set(ata(&u, &c), token_acc(c, u, 1_000_000_000_000));
     }
-    let x = X { markets: vec![w.m1.clone(), w.m2.clone(), m3, m4], w, c, feed_c };
+    let x = X { markets: vec![w.m1.clone(), w.m2.clone(), m3, m4, m5], w, c, feed_c };
     // liquidity in every market
     for (i, m) in x.markets.clone().iter().enumerate() {
         let n = [40 + i as u8; 32];
@@ -144,7 +145,7 @@ fn chain(path: &[&MarketKeys], token: Pubkey, target: Pubkey) -> Option<Vec<Pubk
     (cur == target).then_some(seq)
 }
 
-fn check_path(x: &X, db0: &Db, pidx: &[usize], token: Pubkey, amount: u64, tamper: bool, sink: &mut e1::Sink) {
+fn check_path(x: &X, db0: &Db, pidx: &[usize], token: Pubkey, amount: u64, tamper: u8, sink: &mut e1::Sink) {
     W::set_time(1_000);
     gmsol_programs::model::clock_verif::set_now(Some(1_000));
     let m = &x.markets[0];
@@ -176,7 +177,8 @@ fn check_path(x: &X, db0: &Db, pidx: &[usize], token: Pubkey, amount: u64, tampe
     }
     let seq = want.unwrap();
     let deposit = deposit_pda(x, &x.w.user, &n);
-    if tamper {
+    let mut exec_path = path.clone();
+    if tamper == 1 {
         // rewrite the stored path so that it contains a duplicate (first market twice): execution must not complete
         if path.len() < 2 {
             return;
@@ -189,14 +191,37 @@ fn check_path(x: &X, db0: &Db, pidx: &[usize], token: Pubkey, amount: u64, tampe
         let Some(p1) = pos.into_iter().find(|p| *p == p0 + 32) else { return };
         acc.data[p1..p1 + 32].copy_from_slice(&first);
         db.set(deposit, acc);
+    } else if tamper == 2 {
+        // rewrite a stored one-hop path [p] into [p, q, p] where q is another market over the same token pair:
+        // every hop chains (t -> A -> t -> A), q is a market other than the deposit market whose index token the action already lists, and only the no-market-twice rule stands between this path and its execution
+        if path.len() != 1 {
+            return;
+        }
+        let p = path[0];
+        let Some(q) = x.markets.iter().find(|q| q.market_token != p.market_token && q.market_token != m.market_token && ((q.long == p.long && q.short == p.short) || (q.long == p.short && q.short == p.long)) && (q.index == p.index || [m.long, m.short, m.index].contains(&q.index))) else { return };
+        exec_path.push(q);
+        let mut acc = db.get(&deposit);
+        let Some(d) = db.pod::<Deposit>(&deposit) else { return };
+        let off = 8 + (d.swap() as *const _ as usize - &d as *const _ as usize);
+        let mut sw: gmsol_utils::swap::SwapActionParams = bytemuck::pod_read_unaligned(&acc.data[off..off + std::mem::size_of::<gmsol_utils::swap::SwapActionParams>()]);
+        if sw.primary_length != 1 || sw.paths[0] != p.market_token {
+            sink.fail("C44/machinery_swap_params_not_located", "could not locate the stored swap parameters".into(), rp());
+            return;
+        }
+        sw.primary_length = 3;
+        sw.paths[1] = q.market_token;
+        sw.paths[2] = p.market_token;
+        acc.data[off..off + std::mem::size_of::<gmsol_utils::swap::SwapActionParams>()].copy_from_slice(bytemuck::bytes_of(&sw));
+        db.set(deposit, acc);
+        sink.count("revisit_tampered");
     }
     let before = balances(x, &db);
     let vaults_before: Vec<u64> = [x.w.a, x.w.b, x.c].iter().map(|t| token_amount(&db, &x.w.vault(t))).collect();
-    let executed = execute_deposit(x, &mut db, m, x.w.user, n, token, &path, None, false);
+    let executed = execute_deposit(x, &mut db, m, x.w.user, n, token, &exec_path, None, false);
     let state = db.pod::<Deposit>(&deposit).and_then(|d| d.header().action_state().ok());
     let after = balances(x, &db);
     let vaults_after: Vec<u64> = [x.w.a, x.w.b, x.c].iter().map(|t| token_amount(&db, &x.w.vault(t))).collect();
-    if tamper {
+    if tamper != 0 {
         sink.case(false);
         if executed.is_ok() && state == Some(ActionState::Completed) {
             sink.fail("C44/duplicate_path_executed", format!("a stored path with a duplicate market ({pidx:?} tampered) was executed to completion"), rp());
@@ -292,14 +317,14 @@ fn check_path(x: &X, db0: &Db, pidx: &[usize], token: Pubkey, amount: u64, tampe
 
 pub fn run(cli: &Cli) -> Report {
     let mut rep = Report::new(cli, "exploration");
-    rep.rule("E1 over swap paths: every sequence of 0..=3 markets out of four (A|A/B, B|A/B, C|B/C, C|A/C; so paths with duplicates, non-chaining paths and paths through the deposit market itself all occur) x initial token in {A,B,C} x amounts, as the long-side swap path of a real create_deposit + execute_deposit into the first market: creation must accept exactly the duplicate-free paths that chain from the initial token into the market's long token; after a completed execution recorded balances and vault balances move together, markets outside the path are untouched, and each declared hop moved exactly the amounts the (C40-validated) SDK swap computes, in order; stored paths tampered to contain a duplicate must not execute; non-trivial = the deposit was created");
+    rep.rule("E1 over swap paths: every sequence of 0..=3 markets out of five (A|A/B, B|A/B, C|B/C, C|A/C, B|B/A; so paths with duplicates, non-chaining paths and paths through the deposit market itself all occur) x initial token in {A,B,C} x amounts, as the long-side swap path of a real create_deposit + execute_deposit into the first market: creation must accept exactly the duplicate-free paths that chain from the initial token into the market's long token; after a completed execution recorded balances and vault balances move together, markets outside the path are untouched, and each declared hop moved exactly the amounts the (C40-validated) SDK swap computes, in order; stored paths tampered to contain a duplicate (adjacent: [p,p,..]; revisiting: [p,q,p] over one token pair, where every hop chains) must not execute; non-trivial = the deposit was created");
     rep.assume("svm-lite runtime trusted; paths of length 4..10 and secondary (short-side) paths, withdrawals and orders use the same SwapMarkets code and are not enumerated");
     let (db, x) = build();
     if let Some(rv) = &cli.replay {
         let pidx: Vec<usize> = rv["path"].as_array().map(|a| a.iter().map(|v| v.as_u64().unwrap_or(0) as usize).collect()).unwrap_or_default();
         let token = match rv["token"].as_str() { Some("A") => x.w.a, Some("B") => x.w.b, _ => x.c };
         for _ in 0..2 {
-            e1::run(&mut rep, "replay", &[0u8], |_, sink| check_path(&x, &db, &pidx, token, rv["amount"].as_u64().unwrap_or(0), rv["tamper"].as_bool().unwrap_or(false), sink));
+            e1::run(&mut rep, "replay", &[0u8], |_, sink| check_path(&x, &db, &pidx, token, rv["amount"].as_u64().unwrap_or(0), rv["tamper"].as_u64().unwrap_or(0) as u8, sink));
         }
         if rep.per_key.values().any(|c| c % 2 != 0) {
             rep.machinery("replay is not deterministic");
@@ -316,7 +341,7 @@ pub fn run(cli: &Cli) -> Report {
     for _ in 0..max_len {
         let mut next = vec![];
         for p in &frontier {
-            for k in 0..4 {
+            for k in 0..x.markets.len() {
                 let mut q = p.clone();
                 q.push(k);
                 next.push(q);
@@ -329,11 +354,15 @@ pub fn run(cli: &Cli) -> Report {
     let counters = e1::run(&mut rep, "swap paths through deposits", &paths, |p, sink| {
         for token in [x.w.a, x.w.b, x.c] {
             for &amount in &amounts {
-                check_path(&x, &db, p, token, amount, false, sink);
+                check_path(&x, &db, p, token, amount, 0, sink);
             }
-            check_path(&x, &db, p, token, 1_000_000, true, sink);
+            check_path(&x, &db, p, token, 1_000_000, 1, sink);
+            check_path(&x, &db, p, token, 1_000_000, 2, sink);
         }
     });
+    if counters.get("revisit_tampered").copied().unwrap_or(0) == 0 {
+        rep.machinery("vacuous exploration: no revisiting path was fabricated");
+    }
     if counters.get("executed").copied().unwrap_or(0) == 0 {
         rep.machinery("vacuous exploration: no swap path was executed");
     }
